@@ -95,6 +95,16 @@ func scBuildSquares() error {
 			k := stripe(c)
 			if prev, ok := seen[k]; ok && !bytes.Equal(prev.DAH.Hash(), c.DAH.Hash()) {
 				scSquares["A"], scSquares["B"] = prev, c
+				// E: the empty block (never written per height, only linked; removal takes a shorter path)
+				el := sq.MustParse("w1:TAIL1")
+				es, err := sq.Build(el[0], 0)
+				if err != nil {
+					return err
+				}
+				if !bytes.Equal(es.DAH.Hash(), share.EmptyEDSDataHash()) {
+					return errors.New("harness: w1:TAIL1 is not the empty block")
+				}
+				scSquares["E"] = es
 				return nil
 			}
 			seen[k] = c
@@ -602,6 +612,10 @@ func scScenarios(tier string) []scScenario {
 			Threads: [][]scOp{{O("geth", 0, "A"), O("read", 0, ""), O("close", 0, "")}, {O("remove", h, "A")}}},
 		{Name: "failed-put-vs-reader", CacheSize: 1, FailKind: "link",
 			Threads: [][]scOp{{O("putq4", h, "A")}, rd(h)}},
+		{Name: "cached-empty-remove-vs-two-readers", CacheSize: 1, Extra: 1, Init: []scOp{O("putq4", h, "E")},
+			Threads: [][]scOp{{O("cget", h, ""), O("read", 0, ""), O("close", 0, "")}, {O("remove", h, "E"), O("has", h, "")}, {O("cget", h, ""), O("close", 0, "")}}},
+		{Name: "cached-remove-vs-two-readers", CacheSize: 1, Extra: 1, Init: []scOp{O("putq4", h, "A")},
+			Threads: [][]scOp{{O("cget", h, ""), O("close", 0, "")}, {O("remove", h, "A"), O("has", h, "")}, {O("cget", h, ""), O("close", 0, "")}}},
 		{Name: "put-vs-remove-same-block", CacheSize: 1,
 			Threads: [][]scOp{{O("putq4", h, "A")}, {O("remove", h, "A"), O("has", h, "")}}},
 		{Name: "put-remove-collide", CacheSize: 1, Init: []scOp{O("putq4", h, "A")},
